@@ -60,6 +60,10 @@ def same(it, a, b):
     """is value a necessarily equal to b on this path?  returns a z3 condition for 'differs' (or bool)"""
     if a is b:
         return False
+    # a path / string handed on by reference or by value is the same argument for an `AsRef<Path>` / `&str` parameter
+    da, db = deref(a), deref(b)
+    if type(da) in (PathV, StringV, str) and type(db) in (PathV, StringV, str) and (type(a) is Ref) != (type(b) is Ref):
+        return same(it, da, db)
     if E.is_sym(a) or E.is_sym(b):
         if isinstance(a, bool) or isinstance(b, bool) or z3.is_bool(a if E.is_sym(a) else b):
             A = a if E.is_sym(a) else z3.BoolVal(bool(a))
